@@ -300,6 +300,107 @@ the weighted mean with weights `(1-alpha)^i` on the row `i` steps back; nothing 
 def ewmAt (q : Rat) (xs : List Rat) : Option Rat :=
   if xs.isEmpty then none else some (ewmNum q xs.reverse / ewmDen q xs.length)
 
+/-! ## ewm(com).mean() on a column WITH NaN cells (the recorded finding `ewm-nan-unsupported`)
+
+`EWMean.on_new` (aggregations.py:158-166) has no NaN handling: the loop body
+```
+old_wt *= q; result = (old_wt * result + 1 * new.iloc[i]) / (old_wt + 1); old_wt += 1
+```
+runs in IEEE arithmetic on the one-row frame `result`, column by column, so a NaN cell of `new.iloc[i]`
+(or a NaN `result`, e.g. `new.iloc[:1]` of a table that starts with NaN) makes that column of `result` NaN,
+and NaN stays NaN.  `old_wt` is a python scalar shared by all columns: it is multiplied by `q` and
+incremented for EVERY row, NaN or not.  (Observed on the real code: `[1, NaN, 3]`, alpha = 1/2 emits
+`1, NaN, NaN` with `old_wt = 1, 3/2, 7/4`.)
+
+Cells are `Option Rat` (`none` = NaN); a one-row frame of one column is `Option (Option Rat)`:
+`none` = the empty frame, `some none` = a row holding NaN. -/
+
+/-- State of `EWMean` for one column that may hold NaN. -/
+structure EwmNanSt where
+  result : Option (Option Rat)
+  oldWt : Rat
+  isFirst : Bool
+deriving DecidableEq, Repr
+
+/-- `(old_wt * result + 1 * x) / (old_wt + 1)` on one cell, with `wq` = the already decayed `old_wt`;
+NaN in, NaN out. -/
+def ewmCell (wq : Rat) (r x : Option Rat) : Option Rat :=
+  match r, x with
+  | some r, some x => some ((wq * r + 1 * x) / (wq + 1))
+  | _, _ => none
+
+/-- The loop body of `EWMean.on_new` over rows that may be NaN.  The weight does not look at the cell. -/
+def ewmLoopNan (q : Rat) : Option (Option Rat) × Rat → List (Option Rat) → Option (Option Rat) × Rat
+  | s, [] => s
+  | (r, w), x :: xs => ewmLoopNan q (r.map (fun r => ewmCell (w * q) r x), w * q + 1) xs
+
+/-- `EWMean.initial(new)` = `(new.iloc[:1], 1, True)`. -/
+def ewmInitialNan (new : List (Option Rat)) : EwmNanSt := { result := new.head?, oldWt := 1, isFirst := true }
+
+/-- `EWMean.on_new` as it is in the tree (with the `is_first` fix), on a column that may hold NaN. -/
+def ewmOnNewNan (q : Rat) (st : EwmNanSt) (new : List (Option Rat)) : EwmNanSt × Option (Option Rat) :=
+  let r0 := if st.isFirst then new.head? else st.result
+  let rows := if st.isFirst then new.drop 1 else new
+  let s := ewmLoopNan q (r0, st.oldWt) rows
+  ({ result := s.1, oldWt := s.2, isFirst := st.isFirst && new.isEmpty }, s.1)
+
+/-- `window_accumulator` around `EWMean` (as `ewmStepWith`), cells may be NaN. -/
+def ewmStepNan (q : Rat) (acc : Option (List (List (Option Rat)) × EwmNanSt)) (new : List (Option Rat)) :
+    Option (List (List (Option Rat)) × EwmNanSt) × Option (Option Rat) :=
+  let cur := acc.getD ([], ewmInitialNan new)
+  let dfs := if new.isEmpty then cur.1 else cur.1 ++ [new]
+  let r := ewmOnNewNan q cur.2 new
+  (some (dfs, r.1), r.2)
+
+/-- The column holds a NaN cell. -/
+def hasNan (l : List (Option Rat)) : Bool := l.any Option.isNone
+/-- NaN cells replaced by 0 (any number would do: the weights never look at the cell). -/
+def fillNan (l : List (Option Rat)) : List Rat := l.map (fun x => x.getD 0)
+/-- `v`, or NaN when `b`. -/
+def tagNan (b : Bool) (v : Rat) : Option Rat := if b then none else some v
+
+/-- What streamz emits after the rows `t` of a column (theorem `ewm_nan_model_characterised`): nothing while
+no row has been seen, NaN as soon as one NaN cell has been seen, pandas' value otherwise. -/
+def ewmStreamzNanAt (q : Rat) (t : List (Option Rat)) : Option (Option Rat) :=
+  if t.isEmpty then none else if hasNan t then some none else (ewmAt q (valid t)).map some
+
+/-- `Σ q^i · x_{t-i}` over the VALID cells, rows listed newest first (Horner form): a NaN cell
+contributes nothing but the older rows still move one step back. -/
+def ewmNumNan (q : Rat) : List (Option Rat) → Rat
+  | [] => 0
+  | none :: older => q * ewmNumNan q older
+  | some x :: older => x + q * ewmNumNan q older
+/-- `Σ q^i` over the positions `i` (steps back) of the valid cells. -/
+def ewmDenNan (q : Rat) : List (Option Rat) → Rat
+  | [] => 0
+  | none :: older => q * ewmDenNan q older
+  | some _ :: older => 1 + q * ewmDenNan q older
+
+/-- The weighted mean over the rows `r` listed newest first; NaN when there is no row. -/
+def ewmValNan (q : Rat) (r : List (Option Rat)) : Option Rat :=
+  if r.isEmpty then none else some (ewmNumNan q r / ewmDenNan q r)
+
+/-- pandas `df.ewm(alpha).mean()` (adjust=True, ignore_na=False, min_periods=0) at the last row of the
+table `xs`, in the textbook form: `Σ_{valid i ≤ t} q^(t-i) x_i / Σ_{valid i ≤ t} q^(t-i)`, NaN while no valid
+cell has been seen, nothing for an empty table.  (For `q = 0`, i.e. alpha = 1, and a NaN last row this
+reads `0/0`; pandas then repeats the previous value, see `ewmAtNan`.) -/
+def ewmAtNanRaw (q : Rat) (xs : List (Option Rat)) : Option (Option Rat) :=
+  if xs.isEmpty then none
+  else if (valid xs).isEmpty then some none
+  else some (some (ewmNumNan q xs.reverse / ewmDenNan q xs.reverse))
+
+/-- pandas `df.ewm(alpha).mean()` at the last row of `xs`, exact for every `q ≥ 0`: a NaN row repeats the
+value of the row before it (pandas leaves `weighted` alone and only decays `old_wt`), so the value is the
+weighted mean taken at the last valid row.  Equal to `ewmAtNanRaw` whenever `q ≠ 0`
+(theorem `ewm_nan_spec_weighted_mean`). -/
+def ewmAtNan (q : Rat) (xs : List (Option Rat)) : Option (Option Rat) :=
+  if xs.isEmpty then none else some (ewmValNan q (xs.reverse.dropWhile Option.isNone))
+
+/-- The one-pass column: the value at every row. -/
+def ewmWholeNan (q : Rat) (pre : List (Option Rat)) : List (Option Rat) → List (Option (Option Rat))
+  | [] => []
+  | x :: xs => ewmAtNan q (pre ++ [x]) :: ewmWholeNan q (pre ++ [x]) xs
+
 /-! ## concrete pandas window reductions (used by the driver; the theorems hold for any `agg`) -/
 
 structure Row where
